@@ -14,7 +14,7 @@ def init_walk_jobs(tier):
     J=[]; M=_mappings(); q=tier=='quick'
     for ti,m in enumerate(M):
         iss=sorted(set([0,m-1])) if q else list(range(m))
-        if q and ti not in (0,1,2,7,11,16): continue
+        if q and ti not in (0,1,11): continue   # quick: 5.1 (three residues), stereo, single-block 8 kHz; thorough: all 17
         for i_s,mg,dk in [(i,m,k) for i in iss for m in (0,1) for k in (0,1,2,3)]:
             if q and ((i_s==0)!=(mg==0) or dk!=(1 if i_s==0 else 2)): continue
             J.append(Job('init-walk-t%d-s%d-%s-f%d'%(ti,i_s,'managed' if mg else 'vbr',dk),'C15/init_walk.c',defs=['-DTI=%d'%ti,'-DIS=%d'%i_s,'-DMG=%d'%mg,'-DDSK=%d'%dk],unwind=260,object_bits=12,checks=['leak'],slice=True,
@@ -22,7 +22,7 @@ def init_walk_jobs(tier):
                 models=['real lib/modes/*.h tables','registry free hooks release exactly their argument','get_setup_template contract (tmpl-*)'],tags=['C13'],
                 bounds='template %d of %d, setting interval %d of %d, fraction case %d of {0,.5,largest float below 1,clamp}, managed=%d; channels/rate anything the template admits; ctl-settable fields arbitrary in their enforced ranges'%(ti,len(M),i_s,m,dk,mg),weight=2))
     for ti,m in enumerate(M):
-        if q and ti not in (0,1,5,11,16): continue
+        if q and ti not in (1,11): continue
         J.append(Job('compand-idx-t%d'%ti,'C15/init_walk.c',defs=['-DTI=%d'%ti,'-DCOMPAND'],unwind=42,object_bits=12,solver='kissat',witnesses=['float setting'],functions=['vorbis_encode_compand_setup'],
             models=['real lib/modes/*.h tables','get_setup_template contract (tmpl-*)'],bounds='template %d, ANY setting the template selection can hand over (float in [0,%d) or a clamp value), any block 0..3, short or long mapping'%(ti,m)))
     return J
